@@ -320,6 +320,10 @@ ENV_KINDS = {
     # the same directory as a node with -blocksxor writes it (the model is asked again: xor.dat is part of the data directory)
     "xor":      lambda s, r: setattr(s, "xorkey", GC_xor_key(s, r)),
     "magic":    lambda s, r: foreign_magic(s, r),
+    # the same options spelt differently (long names, =, attached values, order, +5 / 005, explicit defaults)
+    "spelling": lambda s, r: s.env.update(spelling=r.randrange(1, 1 << 30)),
+    # another size of the worker pool (every callback sees blocks one at a time, in order, whatever evaluates their transactions)
+    "threads":  lambda s, r: setattr(s, "threads", r.choice([1, 2, 3, 64])),
     "environ":  lambda s, r: s.env.update(environ=r.choice([{"TMPDIR": "/nonexistent-tmp"}, {"RUST_LOG": "trace", "RUST_BACKTRACE": "1"}, {"LANG": "C", "LC_ALL": "C", "TZ": "Pacific/Kiritimati"}, {"HOME": "/nonexistent-home", "COLUMNS": "20", "TERM": "dumb", "NO_COLOR": "1"}])),
 }
 DUMPERS = ("csvdump", "unspentcsvdump", "balances")
@@ -352,7 +356,7 @@ def GC_xor_key(s, r):
 
 
 def env_kinds_for(s):
-    ks = ["v", "vv", "links", "slash", "environ", "tty"] + (["xor"] if s.xorkey is None else []) + (["magic"] if s.block_at else [])
+    ks = ["v", "vv", "links", "slash", "environ", "tty", "spelling", "threads"] + (["xor"] if s.xorkey is None else []) + (["magic"] if s.block_at else [])
     if s.callback in DUMPERS:
         ks += ["cwd", "shm", "leftovers"]
     else:
